@@ -8,7 +8,6 @@ from typing import Any
 from typing import Iterable
 
 from liquid2.builtin import LambdaExpression
-from liquid2.builtin import Null
 from liquid2.builtin import Path
 from liquid2.builtin import PositionalArgument
 from liquid2.exceptions import LiquidTypeError
@@ -22,17 +21,9 @@ if TYPE_CHECKING:
     from liquid2.builtin import KeywordArgument
 
 
-class _Null:
-    """A null without a token for use by the map filter."""
-
-    def __eq__(self, other: object) -> bool:
-        return other is None or isinstance(other, (_Null, Null))
-
-    def __str__(self) -> str:  # pragma: no cover
-        return ""
-
-
-_NULL = _Null()
+# Missing properties map to nil, so `compact`, `json`, `where` and friends treat
+# them like any other nil.
+_NULL = None
 
 
 def _getitem(obj: Any, key: object, default: object = None) -> Any:
